@@ -242,6 +242,48 @@ theorem leaf_reduce_correct (A : AggType) (calls : List Arrays) (hw : ∀ c ∈ 
     arrGet (calls.foldl reduceInto (Arrays.init [A])) A t = fsum A calls (fun c => arrGet c A t) :=
   reduce_spec A calls hw t
 
+/-- **Memory query of one page, end to end** (write buffer + window compactions + the two
+`DownSampling` calls of `timeSeriesIndex.Load` + leaf reduce): for a commutative field aggregate
+and every good write sequence, bucket `t` of the leaf answer is the fold over the slots of the
+reference slot map that fall into the bucket — whatever the window / compress-buffer state. -/
+theorem page_query_eq_naive_partial (w : Nat) (hw : 0 < w) (A : AggType) (hc : AggType.isComm A = true)
+    (ws : List (Nat × Int)) (hg : goodRunB w A (Buf.fresh w) ws = true)
+    (lo hi tLo tHi g0 qs ratio t : Nat) :
+    arrGet ((pageCalls [A] (runWrites w A (Buf.fresh w) ws) lo hi tLo tHi g0 qs ratio).foldl reduceInto
+        (Arrays.init [A])) A t =
+      fsum A (slotsOf lo hi)
+        (fun s => if tLo ≤ s ∧ s ≤ tHi ∧ (g0 + s - qs) / ratio = t then refSlots A ws s else none) := by
+  obtain ⟨hinv, hview⟩ := run_refines w A ws (Buf.fresh w) (BufInv.fresh hw) hg
+  rw [pageCalls_spec (agg_comm_of_isComm hc) _ hinv]
+  apply fsum_congr
+  intro s _
+  rw [hview s]
+  simp [memView_fresh]
+
+/-- **The same page after its flush**: the one `DownSampling` call on the flushed cells gives the
+same buckets as the memory query gave (the metric-level range `[lo, hi]` covers the written
+slots). Together with `storage_refines_slotmap_partial` this is the leaf-level form of
+"independent of when memory databases were flushed". -/
+theorem page_query_flush_invariant (w : Nat) (hw : 0 < w) (A : AggType) (hc : AggType.isComm A = true)
+    (ws : List (Nat × Int)) (hg : goodRunB w A (Buf.fresh w) ws = true)
+    (lo hi : Nat) (hcov : ∀ s, refSlots A ws s ≠ none → lo ≤ s ∧ s ≤ hi) (tLo tHi g0 qs ratio t : Nat) :
+    arrGet (dsCall [A]
+        (fun slot => if slot < lo ∨ slot > hi then none
+          else cellAt (flushCells A (runWrites w A (Buf.fresh w) ws) lo hi) (slot - lo))
+        lo hi tLo tHi g0 qs ratio) A t =
+      arrGet ((pageCalls [A] (runWrites w A (Buf.fresh w) ws) lo hi tLo tHi g0 qs ratio).foldl reduceInto
+        (Arrays.init [A])) A t := by
+  obtain ⟨hinv, hview⟩ := run_refines w A ws (Buf.fresh w) (BufInv.fresh hw) hg
+  rw [pageCalls_spec (agg_comm_of_isComm hc) _ hinv, dsCall_spec]
+  apply fsum_congr
+  intro s _
+  have hcov' : ∀ t, memView A (runWrites w A (Buf.fresh w) ws) t ≠ none → lo ≤ t ∧ t ≤ hi := by
+    intro t ht
+    apply hcov t
+    rw [hview t] at ht
+    simpa [memView_fresh] using ht
+  rw [flushCell_eq_memView A hinv (Or.inl hc) lo hi s hcov']
+
 /-- **Field functions** on the abstract map: sum/min/max/count/first/last return the field's array
 for the function's agg type unchanged, `rate` divides by the query interval in seconds. -/
 theorem expr_eval_correct (f : FuncType) (sec : Nat) (v : Int) :
